@@ -146,7 +146,7 @@ async fn wait_until<F: Fn(&Shared) -> bool>(ctl: &Ctl, f: F) -> bool {
     false
 }
 
-async fn run_case(line: &str) -> String {
+async fn run_case(line: &str, case_no: usize) -> String {
     let (cfg, script) = line.split_once('|').expect("case needs a '|'");
     let mut kv: HashMap<&str, u64> = HashMap::new();
     for t in cfg.split_whitespace() {
@@ -155,10 +155,19 @@ async fn run_case(line: &str) -> String {
     }
     let ctl: Ctl = Arc::new(Mutex::new(Shared::default()));
     ctl.lock().unwrap().mode = "refuse".into();
-    // pick a free port, then release it: nothing listens until the script says so
-    let probe = std::net::TcpListener::bind("127.0.0.1:0").unwrap();
-    let addr: SocketAddr = probe.local_addr().unwrap();
-    drop(probe);
+    // a port of our own, OUTSIDE the ephemeral range (so that nobody else - other shards of this check, other checks'
+    // `bind(0)` sockets, outgoing connections - can own it while the script wants connects to be refused): one block
+    // of 20 ports per process, probed once; nothing listens until the script says so
+    let mut addr: SocketAddr = "127.0.0.1:1".parse().unwrap();
+    for k in 0..20u32 {
+        let port = 10000 + (std::process::id() % 1000) * 20 + ((case_no as u32 + k) % 20);
+        let cand: SocketAddr = format!("127.0.0.1:{port}").parse().unwrap();
+        if let Ok(probe) = std::net::TcpListener::bind(cand) {
+            drop(probe);
+            addr = cand;
+            break;
+        }
+    }
     let release = Arc::new(tokio::sync::Notify::new());
     let options = ClientOptions::default()
         .decode_level(DecodeLevel::nothing())
@@ -222,6 +231,10 @@ async fn run_case(line: &str) -> String {
                         let r = ch.read_holding_registers(param, AddressRange::try_from(id as u16, 1).unwrap()).await;
                         ctl2.lock().unwrap().completions.push((id, class(&r).to_string()));
                     });
+                    // let the spawned call reach the queue before the script goes on (keeps the script order)
+                    for _ in 0..4 {
+                        tokio::task::yield_now().await;
+                    }
                 }
                 true
             }
@@ -297,10 +310,10 @@ async fn run_case(line: &str) -> String {
 
 pub fn main(_args: &[String]) -> i32 {
     crate::util::quiet_panics();
-    for line in crate::util::stdin_lines() {
+    for (case_no, line) in crate::util::stdin_lines().enumerate() {
         let res = std::panic::catch_unwind(move || {
             let rt = tokio::runtime::Builder::new_current_thread().enable_all().build().unwrap();
-            let out = rt.block_on(run_case(&line));
+            let out = rt.block_on(run_case(&line, case_no));
             drop(rt);
             out
         });
